@@ -77,7 +77,9 @@ def dotSlack (F : Type) [FloatLike F] (c xs : List Rat) : Rat :=
 def closeTo (y e tol : Rat) : Bool := absQ (y - e) ≤ tol
 
 /-- C18 clauses: `h` includes the current sample -/
-def specHampel (N : Nat) (thr : F) (h : List (List F)) (y : List F) : List Clause :=
+def representable (F : Type) [FloatLike F] (q : Rat) : Bool := FloatLike.toRat (ofRat F q) == some q
+
+def specHampel (N : Nat) (thr fac : F) (h : List (List F)) (y : List F) : List Clause :=
   match ratsOf (fheads h), FloatLike.toRat thr, y with
   | some xs, some t, [yf] =>
     match xs.reverse with
@@ -85,16 +87,30 @@ def specHampel (N : Nat) (thr : F) (h : List (List F)) (y : List F) : List Claus
     | x :: prevRev =>
       let prev := prevRev.reverse
       let w := Spec.window N prev
-      let isX := toBitsNat yf == toBitsNat ((fheads h).getLastD yf)
+      -- "the sample": the same bits, or at least the same number (`-0.0` for `0.0` is a model disagreement, not a C18 violation)
+      let isX := toBitsNat yf == toBitsNat ((fheads h).getLastD yf) || FloatLike.toRat yf == some x
       match FloatLike.toRat yf, Spec.lowerMedian w, Spec.minimum w with
       | some yq, some med, some mn =>
         let factor : Rat := mkRat 14826 10000
         let maxDist := maxAbs (w.map (· - med))
         let dev := absQ (x - med)
+        -- the filter evaluates `|x - med| > ((spread·f)·t)` in the float type: four roundings and the rounded factor;
+        -- a sample within that relative distance of the bound may legitimately fall on either side
+        let slack : Rat := 1 + mkRat 8 (2 ^ mantBits F)
+        let tiny : Rat := mkRat 1 (10 ^ 30)
         [clauseP "C18.two-valued" (isX || yq == med) "the sample or the previous window's median"] ++
-        (if t ≥ 0 && dev * (1 + mkRat 1 1000000000) ≤ t * factor * (med - mn) then
+        -- exactly on the bound: decidable when the bound is computed without rounding whatever the association
+        -- (then the filter's own threshold is at least this bound, rounding being monotone, and the rounded distance
+        -- is at most it); the factor is the constant as the float type holds it
+        let onBound : Bool := match FloatLike.toRat fac with
+          | some fq =>
+            let spread := med - mn
+            representable F (spread * fq) && representable F (fq * t) && representable F (spread * t) &&
+              representable F (spread * fq * t) && dev ≤ spread * fq * t
+          | none => false
+        (if t ≥ 0 && (dev == 0 || onBound || dev * slack + tiny ≤ t * factor * (med - mn)) then
           [clauseP "C18.inlier-passes" isX "the sample (inlier)"] else []) ++
-        (if t ≥ 0 && dev > t * factor * maxDist * (1 + mkRat 1 1000000000) then
+        (if t ≥ 0 && dev > t * factor * maxDist * slack + tiny then
           [clauseP "C18.outlier-replaced" (yq == med) "the median (outlier)"] else [])
       | some _, none, _ => [clauseP "C18.first-unchanged" isX "the first sample unchanged"]
       | _, _, _ => []
@@ -159,7 +175,7 @@ def specSynthF (l hp : List F) (h : List (List F)) (y : List F) (analysisInputs 
   | _, _, _, _, _ => []
 
 def specFloat (getPartnerInputs : Option (List F)) : St F → List (List F) → List F → Bool → List Clause
-  | .hampel t _ med, h, y, _ => specHampel med.buffer.length t h y
+  | .hampel t f med, h, y, _ => specHampel med.buffer.length t f h y
   | .convolve c _, h, y, preset => specConvF c h y preset
   | .analyze l hp _ _, h, y, _ => specAnalyzeF l hp h y
   | .synthesize l hp _ _, h, y, _ => specSynthF l hp h y getPartnerInputs
